@@ -20,6 +20,7 @@ RULE = ("Per rule (each names a child at most once, asserted at run time): every
         "ChildNotAllowedError; is_allowed_child(x) <=> x labels a transition on some accepting path of the rule DFA. "
         "Non-trivial: (rule, sequence, candidate) where some but not every position yields a member; distinct triples.")
 RULE += ('  The candidate is presented detached, constructed with parent=, still attached to another parent and as a copy of a node attached elsewhere: the answer has to be the same.')
+RULE += ('  The question is repeated with the existing children dressed in a namespace prefix: the answer has to be the same.')
 ASSUMPTIONS = [
     "language membership as in C01 (rules.json semantics); results in the strict/loose disagreement zone are not judged",
     "existing sequences range over the rule's own child names (a parent that already holds foreign children is outside the quantifier)",
